@@ -185,8 +185,9 @@ CLAIMED["C12"] = dict(
          "the key, each once, ascending, and reports exhaustion only when none is left (ghost stream model at the interface contracts of Table.SeekRef / iterator.Next); two "
          "facts about byte-wise string order (a name is >= each of its prefixes; names with a common prefix form an interval); strings.Split, path.Split, strings.TrimSuffix, "
          "sort.SearchStrings compute the abstract functions they are specified by. Not decided: completeness of validateAddition (that a legal transaction is never refused) "
-         "beyond the exactness of the two lookups; that checkAddition (trusted) hands the right view to the check - pinned-tree defect F15 (tables of one multi-table "
-         "Addition are not checked against each other) is not reported; and the induction over histories that the live set stays conflict-free."),
+         "beyond the exactness of the two lookups; that checkAddition (trusted) reads the new table correctly; and the induction over histories that the live set stays conflict-free. Known finding (recorded, "
+         "not repaired): the tables of one multi-table Addition are not checked against each other (F15) - the obligation 'names are checked against the whole transaction' at "
+         "Addition.Add fails and is printed as KNOWN-FINDING."),
    design="4/C12", technique="contract-based deductive verification: abstract live-set specification, ghost stream model for the iterator, loop invariants")
 
 NOT_APPLICABLE = {
